@@ -91,4 +91,15 @@ where
           subst h
           simp [List.mapM_length_eq hxs]
 
+/-- C17 (*table*, regenerated): the bodies that wrap the initialiser — a struct conversion is the destination path applied
+    to the init block (From and Into alike), an enum conversion is `match value {..}` (From) or `match self {..}` (Into);
+    the IntoExisting flavours splice the statements unwrapped; a quick return into an existing value is `*other = <expr>;`;
+    `vars` become `let a = b;`; the fallible body is `Ok(<inner>)` -/
+theorem C17_main_blocks :
+    (Gen.tmpl_struct_main_code_block == [[.h "dst", .h "struct_init_block"], [.h "dst", .h "struct_init_block"]]
+     && Gen.tmpl_enum_main_code_block == [[tk "match", tk "value", .h "enum_init_block"], [tk "match", tk "self", .h "enum_init_block"]]
+     && Gen.tmpl_struct_pre_init == [[tk "let", .h "a", pn '=', .h "b", pn ';']]
+     && Gen.tmpl_main_code_block == [[pn '*', tk "other", pn '=', .h "action", pn ';']]
+     && Gen.tmpl_main_code_block_ok == [[pn '*', tk "other", pn '=', .h "action", pn ';'], [tk "Ok", .g .paren [.h "inner"]]]) = true := by decide
+
 end O2o
